@@ -8,13 +8,13 @@ use rayon::prelude::*;
 use serde::{Deserialize, Serialize};
 
 use crate::cli::{self, CliArgs, CliShape};
-use crate::engine::{hash_json, idx, part, Ctx, PartDef, Rec};
+use crate::engine::{hash_json, idx, part, part_opts, Ctx, PartDef, PartOpts, Rec};
 use crate::geom;
 use crate::opt::OptCfg;
 use crate::statejson::{self, ShapeSpec};
 
 pub const TITLE: &str = "Same seed, same answer: results do not depend on threads or other replicas";
-pub const RULE: &str = "part batches: a batch of 4..24 optimisation tasks (hard polygon / hard discs / Lennard-Jones, any group, configurations with an explicit seed, 50..1500 steps, duplicates included), each run alone on the calling thread to obtain the reference JSON, then the whole batch run concurrently on rayon pools of generated sizes (1..16 and 32 threads) in a generated submission order, every task cloning one shared input state per (kind, group, shape) inside its worker. Oracle: every concurrent result serialises byte-identically to its reference; the shared input states serialise byte-identically before and after. part cli: the real binary with generated arguments under RAYON_NUM_THREADS in {1,2,3,5,8,16} and repeated; .json and .svg byte-identical throughout. Non-trivial = a pool run in which >= 2 tasks were observed running at the same time on >= 2 distinct worker threads (counted with an atomic in-flight counter, no clock), or a CLI case with >= 2 replications; distinct by hash of the case.";
+pub const RULE: &str = "part batches: a batch of 4..24 optimisation tasks (hard polygon / hard discs / Lennard-Jones, any group, configurations with an explicit seed, 50..1500 steps, duplicates included), each run alone on the calling thread to obtain the reference JSON, then the whole batch run concurrently on rayon pools of generated sizes (1..16 threads; four batches at a time) in a generated submission order, every task cloning one shared input state per (kind, group, shape) inside its worker. Oracle: every concurrent result serialises byte-identically to its reference; the shared input states serialise byte-identically before and after. part cli: the real binary with generated arguments under RAYON_NUM_THREADS in {1,2,3,5,8,16} and repeated; .json and .svg byte-identical throughout. Non-trivial = a pool run in which >= 2 tasks were observed running at the same time on >= 2 distinct worker threads (counted with an atomic in-flight counter, no clock), or a CLI case with >= 2 replications; distinct by hash of the case.";
 
 pub fn assumptions() -> Vec<&'static str> {
     vec![
@@ -66,7 +66,7 @@ fn batch_strat(_: &Ctx) -> BoxedStrategy<BatchCase> {
     (
         proptest::collection::vec(input_strat(), 1..=4),
         proptest::collection::vec((any::<u16>(), cfg_strat()), 4..=24),
-        proptest::collection::vec(prop_oneof![4 => 1usize..=16, 1 => Just(32usize), 1 => Just(2usize)], 1..=3),
+        proptest::collection::vec(prop_oneof![4 => 1usize..=16, 1 => Just(2usize), 1 => Just(16usize)], 1..=3),
         proptest::collection::vec(any::<u16>(), 24),
     )
         .prop_map(|(inputs, t, pools, order_seed)| BatchCase { inputs, tasks: t.into_iter().map(|(input, cfg)| Task { input, cfg }).collect(), pools, order_seed })
@@ -277,5 +277,9 @@ fn cli_oracle(c: &CliCase, rec: &Rec, ctx: &Ctx) -> Result<(), String> {
 }
 
 pub fn parts() -> Vec<PartDef> {
-    vec![part("batches", 300, 12_000, batch_strat, batch_oracle), part("cli", 120, 2_400, cli_strat, cli_oracle)]
+    // the batches run their own thread pools: few harness shards, and little shrinking (a batch is expensive)
+    vec![
+        part_opts("batches", 300, 12_000, batch_strat, batch_oracle, |c: &BatchCase, _: &dyn Fn(&BatchCase) -> bool| c.clone(), PartOpts { max_shards: 4, max_shrink_iters: 24 }),
+        part("cli", 120, 2_400, cli_strat, cli_oracle),
+    ]
 }
